@@ -331,9 +331,9 @@ class FlowInterp(Interp):
     (4) single-step routines are recognised by their signature (source, dest, layout_source, layout_dest), whatever their name;
     (5) the layouts of the enclosing step are known inside the kernels it calls (view extents); (6) two array parameters bound to
     one array are reported when the callee's effect summary says they must differ; (7) an array argument that cannot be followed
-    makes the path undecided, never wrong."""
-
-    LIST_MUTATORS = {"append", "extend", "insert", "pop", "remove", "clear", "sort", "reverse"}
+    makes the path undecided, never wrong.  (Loops over unknown sequences, try/finally, iterators, generators, list mutation and
+    stores of unfollowed values are the engine's since its audit: the copies that lived here were removed; a path on which a callee
+    raises ends there, see `run`.)"""
 
     def __init__(self, *a, effects=None, **k):
         super().__init__(*a, **k)
@@ -453,67 +453,6 @@ class FlowInterp(Interp):
             return a if repr(a) == repr(b) else OPAQUE
         return super().ev(e, st, fq)
 
-    def generator_items(self, e, st, fq):
-        """the list of values a call of a generator function of the analysed module yields, when its body can be followed on one path
-        with known loop items and touches none of the arrays (it only hands names and buffers on); else None"""
-        try:
-            tg = [(r, q, n) for r, q, n in self.prog.resolve(e, self.rel) if r == self.rel]
-        except Exception:
-            return None
-        if len(tg) != 1:
-            return None
-        _, q, fn = tg[0]
-        if not any(isinstance(y, ast.Yield) for y in ast.walk(fn)) or any(isinstance(y, (ast.YieldFrom, ast.Return)) and getattr(y, "value", None) is not None
-                                                                         for y in ast.walk(fn)):
-            return None
-        if q in self.stack or len(self.stack) >= self.max_depth:
-            return None
-        params = [a.arg for a in fn.args.args]
-        static = any(isinstance(d, ast.Name) and d.id == "staticmethod" for d in fn.decorator_list)
-        if params and params[0] in ("self", "cls") and not static:
-            params = params[1:]
-        if any(isinstance(a, ast.Starred) for a in e.args) or e.keywords or len(e.args) != len(params):
-            return None
-        env2 = {k: v for k, v in st.env.items() if k.startswith("self.")}
-        env2.update({p_: self.ev(a, st, fq) for p_, a in zip(params, e.args)})
-        env2["self"] = OPAQUE
-        env2["<yields>"] = ()
-        s2 = State(env2, st.tok)
-        self.stack.append(q)
-        try:
-            outs = self.run(fn, s2, q)
-        except AnalysisError:
-            return None
-        finally:
-            self.stack.pop()
-        if len(outs) != 1 or outs[0].tok.problems != st.tok.problems or outs[0].tok.writes != st.tok.writes or outs[0].tok.loc != st.tok.loc \
-                or outs[0].env.get("<yields>") is None:
-            return None
-        return list(outs[0].env["<yields>"])
-
-    def abstract_elem(self, e, st, fq):
-        """what the loop variable(s) of `for ... in e` stand for when the items cannot be enumerated: an item of (a view of) an array
-        is a view of that array; enumerate/zip give tuples of such items; anything else is unknown"""
-        if isinstance(e, ast.Call) and isinstance(e.func, ast.Name) and not any(isinstance(a, ast.Starred) for a in e.args):
-            nm = e.func.id
-            if nm == "enumerate" and e.args:
-                return (OPAQUE, self.abstract_elem(e.args[0], st, fq))
-            if nm == "zip" and e.args and not e.keywords:
-                return tuple(self.abstract_elem(a, st, fq) for a in e.args)
-            if nm in ("reversed", "list", "tuple", "iter", "sorted") and len(e.args) == 1:
-                return self.abstract_elem(e.args[0], st, fq)
-        v = self.ev(e, st, fq)
-        if isinstance(v, Roots):
-            return Roots(v)
-        if isinstance(v, Fresh):
-            return v
-        if isinstance(v, (list, tuple)) and v:
-            if len({repr(x) for x in v}) == 1:
-                return v[0]
-            if all(isinstance(x, Roots) for x in v):
-                return Roots(self.roots_of(v))
-        return OPAQUE
-
     # ------------------------------------------------------------ remembered comparisons
     @staticmethod
     def _signs(v):
@@ -545,11 +484,6 @@ class FlowInterp(Interp):
 
     # ------------------------------------------------------------ statements
     def stmt(self, n, st, fq):
-        if isinstance(n, ast.Expr) and isinstance(n.value, ast.Call) and isinstance(n.value.func, ast.Attribute) \
-                and n.value.func.attr in self.LIST_MUTATORS and isinstance(n.value.func.value, ast.Name) \
-                and isinstance(st.env.get(n.value.func.value.id), list):
-            st.env[n.value.func.value.id] = OPAQUE
-            return [st]
         if isinstance(n, ast.Expr) and isinstance(n.value, ast.Call) and src(n.value.func) in ("np.copyto", "numpy.copyto") \
                 and len(n.value.args) >= 2:
             # np.copyto(dst, src) is the store dst[...] = src
@@ -591,55 +525,6 @@ class FlowInterp(Interp):
         if isinstance(n, ast.AugAssign) and isinstance(n.target, ast.Name) and isinstance(st.env.get(n.target.id), list):
             st.env[n.target.id] = OPAQUE
             return [st]
-        if isinstance(n, ast.Expr) and isinstance(n.value, ast.Yield):
-            if "<yields>" in st.env and st.env["<yields>"] is not None:
-                st.env["<yields>"] = tuple(st.env["<yields>"]) + (self.ev(n.value.value, st, fq) if n.value.value is not None else None,)
-            return [st]
-        if isinstance(n, (ast.Continue, ast.Break)):
-            # leave the iteration: nothing more of the body runs for this state (the loop resets the mark)
-            st.env["<loopctl>"] = "continue" if isinstance(n, ast.Continue) else "break"
-            st.ret = True
-            return [st]
-        if isinstance(n, ast.Assign) and len(n.targets) == 1 and isinstance(n.targets[0], ast.Name) and isinstance(n.value, ast.Call) \
-                and isinstance(n.value.func, (ast.Name, ast.Attribute)):
-            # names bound to an ITERATOR (zip / iter / map / enumerate / reversed / a generator call): `next()` and `for` consume it
-            fnm = n.value.func.id if isinstance(n.value.func, ast.Name) else n.value.func.attr
-            is_iter = fnm in ("zip", "iter", "enumerate", "reversed", "map", "filter") or self.generator_items(n.value, st.fork(), fq) is not None
-            its = tuple(x for x in st.env.get("<iters>", ()) if x != n.targets[0].id)
-            st.env["<iters>"] = its + ((n.targets[0].id,) if is_iter else ())
-        if isinstance(n, ast.For):
-            it = self.ev(n.iter, st, fq)
-            if isinstance(n.iter, ast.Name) and n.iter.id in st.env.get("<iters>", ()) and isinstance(it, (list, tuple)):
-                outs = self.run_loop(n, [st], fq, it)
-                for s_ in outs:
-                    s_.env[n.iter.id] = []          # the iterator is exhausted
-                return outs
-            if not isinstance(it, (list, tuple)):
-                if self.moves_field(n):
-                    self.problem(st, "loop-undecided", f"the iterations of `for {src(n.target)} in {src(n.iter)[:50]}`, which carry out layout steps, "
-                                 "could not be enumerated", n, fq)
-                # unknown sequence: one-or-more iterations, the body is read twice (stability); an element of an array is a view of it
-                # (also through enumerate / zip / reversed)
-                x = self.abstract_elem(n.iter, st, fq)
-                it = [x, x]
-            # one pass of the body per element (also `enumerate(x, start=k)`, which the engine reads as start=0)
-            return self.run_loop(n, [st], fq, it)
-        if isinstance(n, ast.Try):
-            # the engine does not enter `try`: body, else and finally are what normally runs (handlers: the exceptional path, not followed)
-            states = self.block(n.body, [st], fq)
-            states = self.block(n.orelse, states, fq) if n.orelse else states
-            if n.finalbody:
-                for s_ in states:
-                    s_.fin_ret, s_.ret = s_.ret, False
-                states = self.block(n.finalbody, states, fq)
-                for s_ in states:
-                    s_.ret = s_.ret or getattr(s_, "fin_ret", False)
-            return states
-        if isinstance(n, ast.While):
-            if self.moves_field(n):
-                self.problem(st, "loop-undecided", f"the iterations of `while {src(n.test)[:50]}`, which carry out layout steps, could not be "
-                             "enumerated", n, fq)
-            return self.run_loop(n, [st], fq, [None, None])
         if isinstance(n, ast.If):
             t = self.ev(n.test, st, fq)
             if isinstance(t, Sym) and t.kind == "cmp":
@@ -661,26 +546,16 @@ class FlowInterp(Interp):
                 return [st]
         return super().stmt(n, st, fq)
 
-    def run_loop(self, n, states, fq, items):
-        """the body once per item; `continue` ends the pass of a state, `break` takes it out of the loop"""
-        left = []
-        for x in items:
-            if isinstance(n, ast.For):
-                for s_ in states:
-                    if not s_.ret:
-                        self.bind_target(n.target, x, s_)
-            states = self.block(n.body, states, fq)
-            nxt = []
-            for s_ in states:
-                ctl = s_.env.pop("<loopctl>", None)
-                if ctl is not None:
-                    s_.ret = False
-                (left if ctl == "break" else nxt).append(s_)
-            states = self.merge(nxt)
-        out = states
-        if getattr(n, "orelse", None):
-            out = self.block(n.orelse, out, fq)
-        return self.merge(out + left)
+    def run(self, fn, st, fq):
+        """a path on which a CALLEE raises does not come back to the caller (the engine would let it continue after the call, and join
+        it with the path that returned normally, which then carries the mark `<raises>` and is discarded as a whole): it ends there.
+        (Handlers of an enclosing `try` are not followed anyway.)  The raising paths of the entry routine itself are kept: the flow
+        check leaves them out by their mark."""
+        n0 = st.tok.assumed.count("<raises>")
+        outs = super().run(fn, st, fq)
+        if len(self.stack) > 1:
+            outs = [o for o in outs if o.tok.assumed.count("<raises>") == n0]
+        return outs
 
     def moves_field(self, loop):
         """does the loop body call a routine of the analysed classes that is given arrays (a layout step)?"""
@@ -692,32 +567,6 @@ class FlowInterp(Interp):
                             and len(c.args) + len(c.keywords) >= len(e_.params):
                         return True
         return False
-
-    def assign(self, t, val, value_node, st, fq, node):
-        if isinstance(t, ast.Subscript):
-            b = t.value
-            while isinstance(b, ast.Subscript):
-                b = b.value
-            if isinstance(b, ast.Name) and isinstance(st.env.get(b.id), Fresh):
-                # a local array: it now also holds what the stored value was computed from
-                st.env[b.id] = Fresh(frozenset(st.env[b.id].derived | self.roots_of(val)))
-                return
-            # ASSUMPTION of every verdict on the location of the field: each store into one of the caller's arrays was seen together
-            # with the arrays its value was computed from.  A value the interpreter could not follow (neither a view/copy of known
-            # arrays nor a literal number) may carry the field: the path is undecided, the store is not read as `writes nothing of the field`
-            if self.unknown_value(val, value_node) and isinstance(self.ev(t.value, st, fq), Roots):
-                self.problem(st, "store-undecided", f"the value stored by `{src(node)[:70]}` could not be followed back to the arrays of the transpose",
-                             node, fq)
-        return super().assign(t, val, value_node, st, fq, node)
-
-    @staticmethod
-    def unknown_value(val, value_node):
-        if val is not OPAQUE:
-            return False
-        v = value_node
-        if isinstance(v, ast.UnaryOp) and isinstance(v.op, (ast.USub, ast.UAdd)):
-            v = v.operand
-        return not (isinstance(v, ast.Constant) and isinstance(v.value, (int, float, complex)) and not isinstance(v.value, bool))
 
     def check_extent(self, st, view, node, fq, side):
         if st.env.get("<lay_dst>") is None and st.env.get("<lay_src>") is None and self.laystack:
@@ -4337,6 +4186,199 @@ def route_readers(mod, cls):
     return out
 
 
+# ------------------------------------------------------------------ memoised results: the key covers what the result is computed from
+def _access_footprint(nodes, params, aliases=None, skip=()):
+    """how the expressions/statements `nodes` read the parameters `params`: {(param, attr): {("whole", text) | ("part", slice text)}}
+    plus `loose`: parameters used as whole objects (handed on, compared, ...) whose reads are not followed.  A local bound once to
+    `p.attr` stands for it."""
+    par = {}
+    for top in nodes:
+        for n in ast.walk(top):
+            for ch in ast.iter_child_nodes(n):
+                par[id(ch)] = n
+    aliases = dict(aliases or {})
+    foot, loose = {}, {}
+    for top in nodes:
+        for n in ast.walk(top):
+            if not (isinstance(n, ast.Name) and isinstance(n.ctx, ast.Load)) or id(n) in skip:
+                continue
+            if n.id in params:
+                up = par.get(id(n))
+                if not (isinstance(up, ast.Attribute) and up.value is n):
+                    loose.setdefault(n.id, n)
+                    continue
+                key, node = (n.id, up.attr), up
+            elif n.id in aliases:
+                key, node = aliases[n.id], n
+            else:
+                continue
+            up = par.get(id(node))
+            if isinstance(up, ast.Subscript) and up.value is node:
+                foot.setdefault(key, set()).add(("part", src(up.slice)))
+            elif isinstance(up, ast.Attribute) and up.value is node:
+                up2 = par.get(id(up))
+                how = f".{up.attr}()" if isinstance(up2, ast.Call) and up2.func is up else f".{up.attr}"
+                foot.setdefault(key, set()).add(("whole", how))
+            else:
+                foot.setdefault(key, set()).add(("whole", "as a whole"))
+    return foot, loose
+
+
+def _param_aliases(fn, params):
+    """locals of fn bound exactly once, to `p.attr` of a parameter p"""
+    stores = {}
+    for n in ast.walk(fn):
+        if isinstance(n, ast.Name) and isinstance(n.ctx, ast.Store):
+            stores[n.id] = stores.get(n.id, 0) + 1
+    out = {}
+    for n in ast.walk(fn):
+        if isinstance(n, ast.Assign) and len(n.targets) == 1 and isinstance(n.targets[0], ast.Name) and stores.get(n.targets[0].id) == 1 \
+                and isinstance(n.value, ast.Attribute) and isinstance(n.value.value, ast.Name) and n.value.value.id in params:
+            out[n.targets[0].id] = (n.value.value.id, n.value.attr)
+    return out
+
+
+def memo_key_coverage(chk, mod, cls_name):
+    """G5-memo-key: a method that keeps its result in a table of the object (`v = self.T.get(key)` / `key in self.T` / `self.T[key]`,
+    filled with `self.T[key] = <result>`) must build the key from everything of its arguments that the result is computed from.
+    Decided by comparing two read footprints at the granularity parameter.attribute (whole / a subscripted part): that of the key
+    expression and that of the computation of the stored value (the statements of the method outside the key, or the method of the
+    class it calls with the parameters)."""
+    rule = "G5-memo-key"
+    cls = mod.cls(cls_name)
+    meths = {}
+    for st_ in cls.body:
+        if isinstance(st_, ast.FunctionDef):
+            meths.setdefault(st_.name, []).append(st_)
+    found = 0
+    for m in [f for fs in meths.values() for f in fs]:
+        q = f"{cls_name}.{m.name}"
+        params = [a.arg for a in m.args.args if a.arg not in ("self", "cls")]
+        if not params:
+            continue
+        # tables of self that are both looked up and filled under one key expression in this method
+        fills = [n for n in ast.walk(m) if isinstance(n, ast.Assign) and len(n.targets) == 1 and isinstance(n.targets[0], ast.Subscript)
+                 and isinstance(n.targets[0].value, ast.Attribute) and isinstance(n.targets[0].value.value, ast.Name)
+                 and n.targets[0].value.value.id == "self"]
+        for fill in fills:
+            tab = src(fill.targets[0].value)
+            kx = fill.targets[0].slice
+            ktxt = src(kx)
+            looked = any((isinstance(x, ast.Call) and isinstance(x.func, ast.Attribute) and x.func.attr == "get" and src(x.func.value) == tab
+                          and x.args and src(x.args[0]) == ktxt) or
+                         (isinstance(x, ast.Compare) and len(x.ops) == 1 and isinstance(x.ops[0], (ast.In, ast.NotIn)) and src(x.left) == ktxt
+                          and src(x.comparators[0]) == tab) or
+                         (isinstance(x, ast.Subscript) and isinstance(x.ctx, ast.Load) and src(x.value) == tab and src(x.slice) == ktxt)
+                         for x in ast.walk(m))
+            if not looked:
+                continue
+            # the key expression (a local bound once is expanded one level)
+            key_nodes = [kx]
+            if isinstance(kx, ast.Name):
+                defs = [n for n in ast.walk(m) if isinstance(n, ast.Assign) and any(isinstance(t, ast.Name) and t.id == kx.id for t in n.targets)]
+                others = [n for n in ast.walk(m) if isinstance(n, ast.Name) and n.id == kx.id and isinstance(n.ctx, ast.Store)]
+                if len(defs) != 1 or len(others) != 1:
+                    continue
+                key_nodes = [defs[0].value]
+                key_stmt = defs[0]
+            else:
+                key_stmt = None
+            aliases = _param_aliases(m, params)
+            kfoot, kloose = _access_footprint(key_nodes, params, aliases)
+            if not kfoot and not kloose:
+                continue          # the key is not built from the arguments: not a memo of a function of the arguments
+            found += 1
+            what = f"{q}: `{tab}[{ktxt}]` keeps the result; key `{src(key_nodes[0])[:80]}`"
+            # the computation of the stored value
+            val = fill.value
+            if isinstance(val, ast.Name):
+                vdefs = [n for n in ast.walk(m) if isinstance(n, ast.Assign) and any(isinstance(t, ast.Name) and t.id == val.id for t in n.targets)
+                         and not (isinstance(n.value, ast.Call) and isinstance(n.value.func, ast.Attribute) and n.value.func.attr == "get"
+                                  and src(n.value.func.value) == tab) and not (isinstance(n.value, ast.Subscript) and src(n.value.value) == tab)]
+            else:
+                vdefs = []
+            comp = None          # (function whose body computes the value, its parameters named as this method's)
+            why_u = None
+            call = vdefs[0].value if len(vdefs) == 1 and isinstance(vdefs[0].value, ast.Call) else val if isinstance(val, ast.Call) else None
+            is_self_call = call is not None and isinstance(call.func, ast.Attribute) and isinstance(call.func.value, ast.Name) \
+                and call.func.value.id == "self" and call.func.attr in meths
+            if is_self_call and not (len(meths[call.func.attr]) == 1 and not call.keywords
+                                     and all(isinstance(a, ast.Name) and a.id in params for a in call.args)):
+                why_u = f"`{src(call)[:60]}` computes the stored value; its arguments are not plain parameters of this method (or the method is " \
+                        "defined more than once)"
+            elif is_self_call:
+                h = meths[call.func.attr][0]
+                hp = [a.arg for a in h.args.args if a.arg not in ("self", "cls")]
+                if len(hp) == len(call.args) and not h.args.vararg and not h.args.kwarg and [a.id for a in call.args] == hp:
+                    comp = (h, hp)
+                else:
+                    why_u = f"the arguments of `{src(call)[:60]}` are not the parameters of {call.func.attr} under the same names"
+            elif vdefs or not isinstance(val, ast.Name):
+                # computed in place: every statement of the method except the key's own definition
+                comp = (m, params)
+            else:
+                why_u = f"the computation of the stored value `{src(val)[:50]}` could not be found (one method of the class called with the parameters, " \
+                        "or statements of this method)"
+            if comp is None:
+                chk.ob(rule, fill, what, None, f"cannot decide: {why_u}", file=U.LAYOUT, func=q)
+                continue
+            h, hp = comp
+            body = [st_ for st_ in h.body if st_ is not key_stmt]
+            # (the key expression written out where the table is subscripted / searched is no read of the computation)
+            skip = set()
+            if h is m:
+                for x in ast.walk(m):
+                    ks = [x.slice] if isinstance(x, ast.Subscript) and src(x.value) == tab else \
+                        [x.args[0]] if isinstance(x, ast.Call) and isinstance(x.func, ast.Attribute) and x.func.attr == "get" and x.args \
+                        and src(x.func.value) == tab else \
+                        [x.left] if isinstance(x, ast.Compare) and len(x.comparators) == 1 and src(x.comparators[0]) == tab else []
+                    for k_ in ks:
+                        if src(k_) == ktxt:
+                            skip |= {id(y) for y in ast.walk(k_)}
+            vfoot, vloose = _access_footprint(body, hp, _param_aliases(h, hp) if h is not m else aliases, skip)
+            bad, und = [], []
+            for p_ in vloose:
+                if p_ not in kloose:
+                    und.append(f"the computation uses the argument `{p_}` as a whole (line {getattr(vloose[p_], "lineno", "?")}): what it reads of it "
+                               "is not followed")
+            for (p_, a_), uses in sorted(vfoot.items()):
+                if p_ in kloose:
+                    continue
+                kuses = kfoot.get((p_, a_), set())
+                if any(k == "whole" for k, _ in kuses):
+                    continue
+                whole = sorted(t for k, t in uses if k == "whole")
+                parts = sorted(t for k, t in uses if k == "part")
+                kparts = sorted(t for k, t in kuses if k == "part")
+                if whole and kparts:
+                    # ASSUMPTIONS (checked): the key holds only subscripted parts of p.attr (no whole occurrence, the parameter itself is not
+                    # in the key); each part is a proper part (a slice with a bound, or an index); the computation reads p.attr through an
+                    # operation on the whole sequence (method call / iteration / handed on), whose result can depend on the items the key
+                    # leaves out (`.index` answers a position in the WHOLE sequence)
+                    if all(t.strip() not in (":", "::") for t in kparts):
+                        bad.append(f"the result is computed from all of `{p_}.{a_}` (`{p_}.{a_}{whole[0] if whole[0].startswith('.') else ''}` "
+                                   f"{'' if whole[0].startswith('.') else whole[0]}) but the key holds only `{p_}.{a_}[{kparts[0]}]`")
+                    continue
+                if whole or parts:
+                    if not kuses:
+                        und.append(f"the computation reads `{p_}.{a_}`, which the key does not contain; whether the key's components determine it "
+                                   "is not established")
+                    elif parts and not set(parts) <= set(kparts):
+                        und.append(f"the computation reads `{p_}.{a_}[{parts[0]}]`, the key holds `{p_}.{a_}[{kparts[0]}]`: whether the part read lies "
+                                   "inside the part in the key is not established")
+            if bad:
+                chk.ob(rule, fill, what, False,
+                       "; ".join(bad) + f": two calls whose arguments agree on the key but differ elsewhere in that attribute get the result of "
+                       f"the first one (computed in {cls_name}.{h.name}) - for the swap axes of a transpose: the pack/unpack kernels split and "
+                       "concatenate along the axes of another pair of layouts", file=U.LAYOUT, func=q)
+            elif und:
+                chk.ob(rule, fill, what, None, "cannot decide: " + "; ".join(und), file=U.LAYOUT, func=q)
+            else:
+                chk.ob(rule, fill, what, True, f"every attribute of the arguments that {cls_name}.{h.name} reads is in the key", file=U.LAYOUT, func=q)
+    chk.ob(rule, cls, f"{cls_name}: results kept in a table under a key built from the arguments", True,
+           f"{found} memoised result(s) examined", file=U.LAYOUT, func=cls_name, nontrivial=False)
+
+
 def handler_contract(chk, mod):
     """the element-placement part of the handler's contract: geometry, axis roles, permutations, read-only route map"""
     distinct_buffers(chk, mod)
@@ -4361,6 +4403,9 @@ def handler_contract(chk, mod):
                "the route map and layout tables are only read" if not muts else "; ".join(d for _, d in muts) +
                " - the stored route is shortened/changed by a transpose: the next transpose between the same layouts takes a wrong route",
                file=U.LAYOUT, func=q)
+        for n_, d_, why_ in getattr(muts, "undecided", ()):
+            chk.ob("G2-no-shared-mutation", n_, f"{q} vs the cached route map: {d_}", None,
+                   f"a possible change of the stored route that could not be established: {why_}", file=U.LAYOUT, func=q)
     # the Layout objects are shared by every transpose: the packer/unpacker never write through something a Layout hands out
     for q in (f"{CLS}._extract_from_source", f"{CLS}._rearrange_from_buffer", f"{CLS}._transpose", f"{CLS}._transpose_source_intact",
               f"{CLS}._get_swap_axes"):
@@ -4373,6 +4418,11 @@ def handler_contract(chk, mod):
                "nothing obtained from a Layout (shape, tables, cached slices) is modified" if not muts else "; ".join(d for _, d in muts) +
                " - the Layout object is shared: the next transpose from this layout starts from the modified value",
                file=U.LAYOUT, func=q)
+        for n_, d_, why_ in getattr(muts, "undecided", ()):
+            chk.ob("G2-no-shared-mutation", n_, f"{q} vs the Layout objects: {d_}", None,
+                   f"a possible change of an object handed out by a Layout that could not be established: {why_}", file=U.LAYOUT, func=q)
+    engine(chk, "G5-memo-key", raw.cls(CLS), "results kept in a table under a key built from the arguments", memo_key_coverage, chk, raw, CLS,
+           file=U.LAYOUT, func=CLS)
     chk.floor("G1-", 6)
     chk.floor("G3-", 2)
     chk.floor("P1-", 4)
